@@ -37,6 +37,9 @@ type Case struct {
 	// AsyncSeed seeds the idle handler's choices when the world has outcomes marked async (async.go).
 	AsyncSeed uint64 `json:"async_seed,omitempty"`
 	Note      string `json:"note,omitempty"`
+	// CloneOf: Schema is not built from scratch but reached from this one by build, Clone, edit of the
+	// clone's enum values, build again (gqlgen.BuildViaClone). It differs from Schema in enum values only.
+	CloneOf *gqlgen.SchemaDesc `json:"clone_of,omitempty"`
 }
 
 // Eval is everything observed for one case.
@@ -68,15 +71,29 @@ type harness struct {
 const maxFailures = 6
 
 func (h *harness) built(desc *gqlgen.SchemaDesc) (*gqlgen.Built, error) {
+	return h.builtVia(nil, desc)
+}
+
+func (h *harness) builtVia(orig, desc *gqlgen.SchemaDesc) (*gqlgen.Built, error) {
 	kb, _ := json.Marshal(desc)
 	k := string(kb)
+	if orig != nil {
+		ob, _ := json.Marshal(orig)
+		k = string(ob) + " => " + k
+	}
 	if b, ok := h.schemas[k]; ok {
 		if b == nil {
 			return nil, fmt.Errorf("schema rejected")
 		}
 		return b, nil
 	}
-	b, err := gqlgen.Build(desc)
+	var b *gqlgen.Built
+	var err error
+	if orig != nil {
+		b, err = gqlgen.BuildViaClone(orig, desc)
+	} else {
+		b, err = gqlgen.Build(desc)
+	}
 	if len(h.schemas) > 256 {
 		h.schemas = map[string]*gqlgen.Built{}
 	}
@@ -122,7 +139,7 @@ func sortedFull(es []ObsErr) string {
 // evaluate runs one case on all sides and applies the oracles.
 func (h *harness) evaluate(c *Case) *Eval {
 	ev := &Eval{Status: "ok"}
-	b, err := h.built(c.Schema)
+	b, err := h.builtVia(c.CloneOf, c.Schema)
 	if err != nil {
 		ev.Status, ev.Detail = "schema-rejected", err.Error()
 		return ev
@@ -522,6 +539,7 @@ func main() {
 	if devN == 0 {
 		h.leafSweep()
 		h.exhaustive()
+		h.cloneEdit()
 	}
 
 	// hx.NewRand(k+1) is hx.NewRand(k) advanced by one draw; fork once so that different seeds give
@@ -541,6 +559,9 @@ func main() {
 		ev := h.check(c, "random")
 		if c.Note == "sandwich" {
 			run.Count("gen:sandwich:" + ev.Status)
+		}
+		if c.CloneOf != nil {
+			run.Count("gen:clone-edit-rebuild:" + ev.Status)
 		}
 		if ev.Status == "ok" {
 			run.Sample(map[string]interface{}{"query": c.Query, "variables": c.Variables, "response": ev.RealJSON})
@@ -568,6 +589,14 @@ func randomCase(r *hx.Rand) *Case {
 	op := req.Doc.SelectedOp(req.OpName)
 	if op == nil {
 		op = &req.Doc.Ops[0] // the request fails before execution; any world will do
+	}
+	if r.Chance(1, 6) {
+		// the same request on a schema reached by build, Clone, edit of enum values, build again; the world
+		// draws its enum results from the edited values
+		if edited := gqlgen.EditEnums(r.Fork(), s); edited != nil {
+			c.CloneOf, c.Schema = s, edited
+			s = edited
+		}
 	}
 	c.World = gqlgen.RandomWorld(r, s, req, op)
 	return c
